@@ -118,23 +118,45 @@ func (ne *nitroEnv) probeItem(k int) []byte {
 
 func (ne *nitroEnv) keyCmp() nitro.KeyCompare {
 	s := ne.s
+	var inner func(a, b []byte) int
 	switch {
 	case !ne.kv:
-		return func(a, b []byte) int {
-			s.Yield(SiteHarnessCmp)
-			return bytes.Compare(a, b)
-		}
+		inner = bytes.Compare
 	case ne.env.Plan.Knob("cmpimpl", 0) == 1:
-		return func(a, b []byte) int {
-			s.Yield(SiteHarnessCmp)
-			return nitro.CompareKV(a, b)
-		}
+		inner = nitro.CompareKV
 	default:
-		return func(a, b []byte) int {
-			s.Yield(SiteHarnessCmp)
-			return bytes.Compare(kvKey(a), kvKey(b))
-		}
+		inner = func(a, b []byte) int { return bytes.Compare(kvKey(a), kvKey(b)) }
 	}
+	return func(a, b []byte) int {
+		s.Yield(SiteHarnessCmp)
+		// the comparator sees every key nitro looks at: with user-managed memory the
+		// bytes must belong to an item block that has not been returned to the allocator
+		if ne.ga != nil && (!ne.checkKeyMem(a) || !ne.checkKeyMem(b)) {
+			return 0
+		}
+		return inner(a, b)
+	}
+}
+
+// checkKeyMem reports a key handed to the comparator that lies in a released block.
+func (ne *nitroEnv) checkKeyMem(k []byte) bool {
+	if len(k) == 0 {
+		return true
+	}
+	p := unsafe.Pointer(unsafe.SliceData(k))
+	if !ne.ga.Owns(p) {
+		return true // probe items live on the Go heap
+	}
+	hdr := unsafe.Pointer(uintptr(p) - 12) // item header in front of the data
+	switch {
+	case ne.ga.IsLive(hdr):
+		return true
+	case ne.ga.WasFreed(hdr):
+		ne.env.Violate("C04", "use-after-free/item-passed-to-comparator", "the key comparator was handed the bytes of an item block that had already been returned to the allocator")
+		ne.s.Abort("use after free seen by the comparator")
+		return false
+	}
+	return true
 }
 
 // ---- set-up ------------------------------------------------------------------
@@ -669,7 +691,43 @@ func (ne *nitroEnv) checkQuiescent(report bool, tag string) string {
 	if lc := ne.model.lastCollectable(); mismatch == "" && ne.db.GetLastGCSn() != lc {
 		mismatch = fmt.Sprintf("GetLastGCSn()=%d, expected %d", ne.db.GetLastGCSn(), lc)
 	}
+	if mismatch == "" {
+		// snapshot bookkeeping: the live list holds exactly the open snapshots, the
+		// retired list exactly the closed ones that cannot be collected yet
+		var wantOpen, wantRetired []uint32
+		lc := ne.model.lastCollectable()
+		for _, ms := range ne.model.snaps {
+			switch {
+			case !ms.closed:
+				wantOpen = append(wantOpen, ms.sn)
+			case ms.sn > lc:
+				wantRetired = append(wantRetired, ms.sn)
+			}
+		}
+		gotOpen, openBytes := snapList(ne.db.VerifSnapshots())
+		gotRetired, retiredBytes := snapList(ne.db.VerifGCSnapshots())
+		if fmt.Sprint(gotOpen) != fmt.Sprint(wantOpen) || fmt.Sprint(gotRetired) != fmt.Sprint(wantRetired) {
+			mismatch = fmt.Sprintf("snapshot lists: open %v retired %v, expected open %v retired %v", gotOpen, gotRetired, wantOpen, wantRetired)
+		} else if mu := ne.db.MemoryInUse(); mu != w.Bytes+openBytes+retiredBytes {
+			// expected memory is computed from the walk with nitro's public size functions
+			mismatch = fmt.Sprintf("MemoryInUse()=%d, the linked store nodes measure %d and the snapshot lists %d+%d", mu, w.Bytes, openBytes, retiredBytes)
+		}
+	}
 	return mismatch
+}
+
+// snapList walks one of the snapshot bookkeeping lists (non-yielding).
+func snapList(sl *skiplist.Skiplist) (sns []uint32, bytes int64) {
+	head, tail := sl.HeadNode(), sl.TailNode()
+	for n, _ := head.VerifNext(0); n != nil && n != tail; {
+		next, marked := n.VerifNext(0)
+		if !marked {
+			sns = append(sns, (*nitro.Snapshot)(n.Item()).VerifSn())
+		}
+		bytes += int64(sl.Size(n))
+		n = next
+	}
+	return
 }
 
 func fmtPhys(p []physVersion) string {
